@@ -1317,10 +1317,12 @@ impl<'a> Wit<'a> {
     }
 }
 
-fn dispatch_sig(ctx: &Ctx, name: &str, id: u16, what: &str) -> String {
+/// A dispatch failure of a type whose id is also carried by another type, while the typed decode
+/// of the same bytes works, is the id collision; anything else is named after what was observed.
+fn dispatch_sig(ctx: &Ctx, name: &str, id: u16, what: &str, typed_ok: bool) -> String {
     let others: Vec<&str> =
         ctx.id_names.get(&id).map(|v| v.iter().copied().filter(|n| *n != name).collect()).unwrap_or_default();
-    if others.is_empty() {
+    if others.is_empty() || !typed_ok {
         format!("codec:{}:{}", what, name)
     } else {
         format!("codec:shared-message-id:{}-shadowed-by-{}", name, others.join("+"))
@@ -1398,6 +1400,7 @@ fn check_plain<T: SerBolt + DeBolt>(
         r.violation(&format!("codec:type-prefix-wrong:{}", name), w.detail(json!({"expected_prefix": id})));
     }
 
+    let typed_ok = matches!(catch(|| T::from_vec(b.clone())), Ok(Ok(_)));
     // (1) Message enum dispatch, unframed and length-framed
     let fr = framed(&b);
     for (path, res) in [
@@ -1408,7 +1411,7 @@ fn check_plain<T: SerBolt + DeBolt>(
         match res {
             Err(p) => r.violation(&format!("codec:decode-panic:{}", name), w.detail(json!({"path": path, "panic": p}))),
             Ok(Err(e)) => r.violation(
-                &dispatch_sig(ctx, name, id, "dispatch-decode-failed"),
+                &dispatch_sig(ctx, name, id, "dispatch-decode-failed", typed_ok),
                 w.detail(json!({"path": path, "error": format!("{:?}", e), "types_with_this_id": ctx.id_names.get(&id)})),
             ),
             Ok(Ok(msg)) => {
@@ -1416,7 +1419,7 @@ fn check_plain<T: SerBolt + DeBolt>(
                 let expect_vn = if kind == Kind::NotDispatched { "Unknown" } else { name };
                 if vn != expect_vn {
                     r.violation(
-                        &dispatch_sig(ctx, name, id, "dispatch-wrong-variant"),
+                        &dispatch_sig(ctx, name, id, "dispatch-wrong-variant", typed_ok),
                         w.detail(json!({"path": path, "decoded_variant": vn, "decoded_debug": cap(&format!("{:?}", msg), 3000), "types_with_this_id": ctx.id_names.get(&id)})),
                     );
                 } else if kind == Kind::NotDispatched {
@@ -1620,6 +1623,7 @@ fn run_streamed<T: StreamedMsg>(g: &mut G, r: &mut Report, ctx: &Ctx, meta: &Met
     let before = r.counters.iter().filter(|(k, _)| k.starts_with("violation:")).map(|(_, v)| *v).sum::<u64>();
     let rest0 = m.split().1;
     let fr = framed(&b);
+    let typed_ok = matches!(catch(|| T::from_vec(b.clone())), Ok(Ok(_)));
 
     let judge = |path: &str, res: Result<Result<T, String>, String>, r: &mut Report| match res {
         Err(p) => {
@@ -1631,7 +1635,13 @@ fn run_streamed<T: StreamedMsg>(g: &mut G, r: &mut Report, ctx: &Ctx, meta: &Met
         }
         Ok(Err(e)) => {
             if consistent {
-                let sig = if e.starts_with("variant:") { dispatch_sig(ctx, name, id, "dispatch-wrong-variant") } else { dispatch_sig(ctx, name, id, "dispatch-decode-failed") };
+                let sig = if path.contains("<T>") || path.starts_with("T::") {
+                    format!("codec:typed-decode-failed:{}", name)
+                } else if e.starts_with("variant:") {
+                    dispatch_sig(ctx, name, id, "dispatch-wrong-variant", typed_ok)
+                } else {
+                    dispatch_sig(ctx, name, id, "dispatch-decode-failed", typed_ok)
+                };
                 r.violation(&sig, w.detail(json!({"path": path, "error": e})));
             } else {
                 r.count("streamed.inconsistent.refused");
